@@ -5,10 +5,13 @@
    up to RetryBound+2 interruptions with stops would swamp the enumeration.
    The history starts with the calls on the registry (tests of every kind added, options set, in every order), and after a
    run the registry may be changed and run again (up to MaxRuns runs); a history ends after a run.  Where the specification
-   leaves a choice (ignored tests in a run without the separate-process option) the scripts follow the intended design. *)
+   leaves a choice (ignored tests in a run without the separate-process option) the scripts follow the intended design.
+   A test that executes in the runner passes or fails a check, and plugins report r more failures about it (r in Reps); with
+   stubbed fork/waitpid the code of a forked test never runs, so there its behaviour is NoBeh. *)
 EXTENDS SepProcess, Json
 CONSTANTS Bursts,   \* lengths of EINTR bursts
-          Faults    \* BOOLEAN: fork / waitpid errors are generated too
+          Faults,   \* BOOLEAN: fork / waitpid errors are generated too
+          Reps      \* numbers of failures reported by plugin actions about one test
 VARIABLES h, fin, burst
 gvars == <<vars, h, fin, burst>>
 
@@ -22,8 +25,8 @@ GStep == /\ ~fin /\ UNCHANGED fin
             \/ Begin(TRUE) /\ Step("begin", "", Len(tests)) /\ UNCHANGED burst
             \/ pc = "next" /\ ti < n /\ Place(tests[ti + 1]) # "runner" /\ StartTest(NoBeh) /\ where' = Place(tests[ti + 1])
                                     /\ Step("teststart", "any", 0) /\ UNCHANGED burst
-            \/ \E a \in {"pass", "fail"} : pc = "next" /\ ti < n /\ Place(tests[ti + 1]) = "runner"
-                                            /\ StartTest([act |-> a, arg |-> 0]) /\ where' = "runner" /\ Step("teststart", a, 0) /\ UNCHANGED burst
+            \/ \E a \in {"pass", "fail"}, r \in Reps : pc = "next" /\ ti < n /\ Place(tests[ti + 1]) = "runner"
+                                            /\ StartTest([act |-> a, arg |-> 0, rep |-> r]) /\ where' = "runner" /\ Step("teststart", a, r) /\ UNCHANGED burst
             \/ Faults /\ ForkFail /\ Step("fork", "fail", 0) /\ UNCHANGED burst
             \/ ForkOk /\ Step("fork", "ok", 0) /\ burst' \in Bursts
             \/ burst > 0 /\ WaitEintr /\ Step("wait", "eintr", 0) /\ burst' = (IF pc' = "wait" THEN burst - 1 ELSE 0)
